@@ -40,7 +40,9 @@ OTHER_DNS = 'other.example'
 PEER_NODE = 'dtn://peer-node/'
 # node ids a peer may announce instead of the one in its certificate: every one of them is another text than the URI identifier
 ANNOUNCE = {'empty': b'', 'nul': PEER_NODE.encode('utf8') + b'\x00', 'nul3': PEER_NODE.encode('utf8') + b'\x00\x00\x00', 'other-scheme': b'ipn:9.0',
-            'longer': PEER_NODE.encode('utf8') + b'x', 'space': PEER_NODE.encode('utf8') + b' '}
+            'longer': PEER_NODE.encode('utf8') + b'x', 'space': PEER_NODE.encode('utf8') + b' ',
+            # octets that are no UTF-8 text at all (only used where the certificate carries a URI identifier: it cannot equal that)
+            'non-utf8': PEER_NODE.encode('utf8') + b'\xff', 'latin1': b'dtn://n\xe9ud/'}
 OTHER_NODE = 'dtn://someone-else/'
 SAN4 = ('absent', 'match', 'mismatch', 'both')
 
@@ -115,6 +117,8 @@ def all_rows():
         # a peer that announces a zero-length node ID: any URI identifier in its certificate then contradicts the announcement
         for uri, req_node in itertools.product(SAN4, (False, True)):
             for announce in sorted(ANNOUNCE):
+                if announce in ('non-utf8', 'latin1') and uri == 'absent':
+                    continue
                 rows.append(dict(local_can=local_can, peer_can=peer_can, require=require, hs_ok=hs_ok, naming=naming,
                                  ip='match', dns='absent', uri=uri, req_host=False, req_node=req_node, announce=announce))
     return rows
@@ -148,6 +152,10 @@ def decide(row):
     dns_v = verdict(row['dns'], has_dns_ref)
     node_v = verdict(row['uri'])
     if row.get('announce') and row['uri'] != 'absent':
+        node_v = 'mismatch'
+    if row.get('announce') in ('nul', 'nul3', 'non-utf8', 'latin1'):
+        # octets that are no URI text (not UTF-8, or with NUL characters) cannot be matched against anything nor reported to the
+        # application: the only consistent outcome is a refusal
         node_v = 'mismatch'
     contradiction = ip_v == 'mismatch' or dns_v == 'mismatch' or node_v == 'mismatch'
     host_ok = ip_v == 'match' or dns_v == 'match'
